@@ -89,13 +89,25 @@ func (d *updogDriver) openFile(file string, optValues url.Values) (driver.Conn, 
 		opts = append(opts, updog.WithCache(lruCache))
 	}
 
-	d.fileConnMtx.RLock()
+	// looking up, opening and inserting a connection must be a single critical section:
+	// otherwise two concurrent first uses both try to open the index file, and since an
+	// index file is locked exclusively, the second one would block forever.
+	d.fileConnMtx.Lock()
+	defer d.fileConnMtx.Unlock()
+
 	conn, ok := d.fileConnCache[key]
-	d.fileConnMtx.RUnlock()
 
 	if ok {
 		conn.refs.Add(1)
 		return conn, nil
+	}
+
+	// an index file can only be opened once at a time. If it is currently open with
+	// different options, opening it again would block forever on the file lock.
+	for k := range d.fileConnCache {
+		if k.file == file {
+			return nil, fmt.Errorf("index file %q is already open with different options (%q)", file, k.opts)
+		}
 	}
 
 	idx, err := updog.OpenIndex(file, opts...)
@@ -105,11 +117,11 @@ func (d *updogDriver) openFile(file string, optValues url.Values) (driver.Conn, 
 
 	conn = &fileConn{
 		idx: idx,
+		drv: d,
+		key: key,
 	}
 
-	d.fileConnMtx.Lock()
 	d.fileConnCache[key] = conn
-	d.fileConnMtx.Unlock()
 
 	conn.refs.Add(1)
 
@@ -129,6 +141,10 @@ type fileConn struct {
 	idx *updog.Index
 
 	refs atomic.Int32
+
+	// drv and key identify the entry of this connection in the driver's connection cache.
+	drv *updogDriver
+	key fileCacheKey
 }
 
 func (c *fileConn) Prepare(query string) (driver.Stmt, error) {
@@ -148,9 +164,24 @@ func (c *fileConn) prepare(query string) (*fileStmt, error) {
 }
 
 func (c *fileConn) Close() error {
+	// the last reference removes the connection from the driver's cache before the index
+	// is closed, so that a later Open of the same file opens it again instead of handing
+	// out a closed connection.
+	c.drv.fileConnMtx.Lock()
+	defer c.drv.fileConnMtx.Unlock()
+
 	if c.refs.Add(-1) <= 0 {
+		if c.drv.fileConnCache[c.key] == c {
+			delete(c.drv.fileConnCache, c.key)
+		}
+
 		idx := c.idx
 		c.idx = nil
+
+		if idx == nil {
+			return nil
+		}
+
 		return idx.Close()
 	}
 
